@@ -57,8 +57,19 @@ def nondefault_ms_opts(v, job):
     return any(env.get("cfg:" + o) for o in MS_OPTS)
 
 
-def properties_of(v, job):
-    """Which properties a recorded violation belongs to."""
+def occurs_with_default_header_options(v, job):
+    preset_on = set(k[4:] for k, val in (job.get("preset") or {}).items() if val)
+    ons = v.get("options_on")
+    if ons is None:
+        return not nondefault_header_opts(v, job)
+    if not ons:
+        ons = [()]
+    return any(not ((set(on) | preset_on) & set(HEADER_OPTS)) for on in ons)
+
+
+def properties_of(v, job, default_keys=None):
+    """Which properties a recorded violation belongs to.  default_keys: deviations (kind, rule,
+    normalised detail) known to occur with every header option off, in any job."""
     rule = v["rule"]
     out = set()
     kind = root_kind(job["root"]) if job["kind"] == "entry" else job["kind"]
@@ -108,7 +119,10 @@ def properties_of(v, job):
         elif phase == "start-line":
             gram = "C06" if kind == "request" else "C07"
         else:
-            gram = "C14" if nondefault_header_opts(v, job) else "C08"
+            with_default = occurs_with_default_header_options(v, job)
+            if not with_default and default_keys is not None and (kind, rule, norm_detail(v["detail"])) in default_keys:
+                with_default = True
+            gram = "C08" if with_default else "C14"
         d = v["detail"]
         if cls == "errkind":
             out.add("C10")
@@ -186,6 +200,12 @@ class Check:
         """Account for exploration jobs: every obligation the machine discharged counts, every
         recorded violation/unanalysable construct attributed to this property is reported."""
         pid = self.pid
+        default_keys = set()
+        for job, res in zip(jobs, results):
+            if res and res.get("ok") and job["kind"] == "entry":
+                for v in res.get("violations", []):
+                    if v["rule"].startswith("spec:") and occurs_with_default_header_options(v, job):
+                        default_keys.add((root_kind(job["root"]), v["rule"], norm_detail(v["detail"])))
         for job, res in zip(jobs, results):
             if not res or not res.get("ok"):
                 self.violation("engine-failure|%s|%s" % (job["root"], (res or {}).get("error", "no result")),
@@ -201,7 +221,7 @@ class Check:
                                      "note": "construct outside the modelled fragment: the check fails closed"})
                 self.obligations += 1
             for v in res.get("violations", []):
-                if pid in properties_of(v, job) and (pid_filter is None or pid_filter(v, job, res)):
+                if pid in properties_of(v, job, default_keys) and (pid_filter is None or pid_filter(v, job, res)):
                     self.violation(violation_key(v, job), dict(v, job=job))
                     self.obligations += 1
         return self
